@@ -178,8 +178,8 @@ Invoke(W, S, m, t, what, msg, hasMsg, cmds) ==
 
 (* the event ends with the module being reset (shutdown request consumed by buf_process): inc counts the *)
 (* incarnations of the module's state = 1 + number of Module::reset calls                              *)
-(* (a panic does not cancel the request: buf_process runs after every module event, panicked or not)    *)
-Resets(S) == S.shut # <<>>
+(* (a panic cancels a request made earlier in the same event: Harness::catch clears it, the module stays down)    *)
+Resets(S) == S.shut # <<>> /\ ~S.dead
 HasRestart(F, m) == \E e \in F : e.ev.k = "restart" /\ e.ev.m = m
 DeadAfter(m, S, W) ==        \* W: the world after the event (its event set holds the restarts to come)
   LET pend == HasRestart(W.fes, m) IN
@@ -191,7 +191,7 @@ IncAfter(m, S) == IF Resets(S) THEN [inc EXCEPT ![m] = @ + 1] ELSE inc
 (* buf_process: flush buffered events in emission order, then consume a shutdown request *)
 Finish(W, m, t, S) ==
   LET W2 == Flush(W, t, S.out) IN
-  IF S.shut = <<>> THEN W2
+  IF S.shut = <<>> \/ S.dead THEN W2
   ELSE LET W3 == [W2 EXCEPT !.active = [@ EXCEPT ![m] = FALSE], !.log = Append(@, [o |-> "reset", m |-> m, t |-> t])] IN
        IF S.shut[1] = "restart" THEN AddEv(W3, t, [k |-> "restart", m |-> m], S.shut[2]) ELSE W3
 
@@ -205,11 +205,11 @@ Drain(cs, ch, t, out) ==
            res == ChanSend(cs1, ch, x.msg, x.r, x.pos, t, out) IN
        IF FixDrain THEN Drain(res[1], ch, t, res[2]) ELSE res
 
-(* ModuleRestartEvent: all stages back to back sharing one event buffer; a reported panic ends the loop *)
-(* (`?` in module_restart), a caught one does not: the next stage runs on the deactivated module        *)
+(* ModuleRestartEvent: all stages back to back sharing one event buffer; a panic ends the loop: a reported *)
+(* one through `?` in module_restart, a caught one because it has deactivated the module                   *)
 RECURSIVE RestartAll(_, _, _, _, _, _, _)
 RestartAll(W, S, m, t, stage, cs, used) ==
-  IF stage >= Stages[m] \/ S.uncaught THEN [W |-> W, S |-> S, used |-> used]
+  IF stage >= Stages[m] \/ S.dead THEN [W |-> W, S |-> S, used |-> used]
   ELSE LET R == Invoke(W, S, m, t, [o |-> "start", m |-> m, stage |-> stage, t |-> t, inc |-> inc[m]], NoMsg, FALSE, cs[stage + 1]) IN
        RestartAll(R.W, R.S, m, t, stage + 1, cs, Append(used, cs[stage + 1]))
 
@@ -251,7 +251,7 @@ BootStep ==
      ELSE LET m == Mods[idx]
               nxt == IF idx = Len(Mods) THEN <<stage + 1, 1>> ELSE <<stage, idx + 1>> IN
           /\ boot' = nxt
-          /\ IF stage < Stages[m]
+          /\ IF stage < Stages[m] /\ active[m]          \* a module that shut down or panicked in an earlier stage is skipped
              THEN \E cmds \in ChoicesFor(m, StartMenu[m]) :
                     LET R == Invoke(World, S0Of(World), m, 0, [o |-> "start", m |-> m, stage |-> stage, t |-> 0, inc |-> inc[m]], NoMsg, FALSE, cmds) IN
                     /\ Commit(Finish(R.W, m, 0, R.S))
